@@ -5,7 +5,7 @@
 From Coq Require Import String.
 From Coq Require Import List NArith ZArith Uint63.
 From HDW Require Import Lib.Outcome Lib.Bytes Run.Pack Prim.Keccak.
-From HDW Require Import Model.Json Model.Eip712Kind Model.Domain Model.Num Model.Eip712Types Model.Eip712Values.
+From HDW Require Import Model.Json Model.JsonText Model.Eip712Kind Model.Domain Model.Num Model.Eip712Types Model.Eip712Values.
 Import ListNotations.
 Local Open Scope outcome_scope.
 
@@ -23,6 +23,10 @@ Definition c08_compute_model := compute keccak256 c08_type_hash permissive_u256
 (** harness op [typeddata]: digest, domain separator, message hash *)
 Definition c08_compute (j : json) : list int :=
   out_fields (omap (fun '(d, ds, mh) => [d; ds; mh]) (c08_compute_model j)).
+
+(** the same from the TEXT of the document ([Model/JsonText.v]); documents without floating-point literals only *)
+Definition c08_compute_text (doc : list N) : list int :=
+  out_fields (omap (fun '(d, ds, mh) => [d; ds; mh]) (bind (json_of_text no_floats doc) c08_compute_model)).
 
 (** one value against a type: [tys] is the JSON [types] object, [ty] the member type text;
     the field is the 32-byte word *)
